@@ -37,6 +37,17 @@ def catalogue(quick=True):
         for dim in (2, 3, -1, -2):
             out.append(('functional1d', dict(fn='afb1d', mode=mode, L=4, H=8, W=10, dim=dim)))
             out.append(('functional1d', dict(fn='sfb1d', mode=mode, L=4, H=8, W=10, dim=dim)))
+    # tiny extents called with a batch / channel count larger than the signal: an index that lands on the wrong axis
+    # then stays inside the tensor and mixes slices instead of raising
+    for mode in MODES5:
+        for dim in (2, 3, -1, -2):
+            out.append(('functional1d', dict(fn='afb1d', mode=mode, L=4, H=4, W=4, dim=dim, tiny=True)))
+            out.append(('functional1d', dict(fn='sfb1d', mode=mode, L=4, H=2, W=2, dim=dim, tiny=True)))
+            out.append(('functional1d', dict(fn='sfb1d', mode=mode, L=6, H=3, W=3, dim=dim, tiny=True)))
+        out.append(('dwt1d-fwd', dict(mode=mode, L=4, N=5, J=1, tiny=True)))
+        out.append(('dwt1d-inv', dict(mode=mode, L=4, N=5, J=1, tiny=True)))
+        out.append(('dwt2d-fwd', dict(mode=mode, L=4, H=4, W=5, J=1, tiny=True)))
+        out.append(('dwt2d-inv', dict(mode=mode, L=4, H=4, W=5, J=1, tiny=True)))
     for mode in ('zero', 'symmetric', 'reflect', 'periodization'):
         for fn in ('afb2d_nonsep', 'sfb2d_nonsep'):
             out.append(('functional', dict(fn=fn, mode=mode, L=4, H=8, W=10, nf=2)))
@@ -50,6 +61,7 @@ def catalogue(quick=True):
             out.append(('dtcwt-fwd', dict(biort=b, qshift=q, H=H, W=W, J=J, mode=mode, o_dim=2, ri_dim=-1, skip=0, scales=0)))
             out.append(('dtcwt-inv', dict(biort=b, qshift=q, H=H, W=W, J=J, mode=mode, o_dim=2, ri_dim=-1, absent=0)))
         out.append(('dtcwt-fwd', dict(biort=b, qshift=q, H=H, W=W, J=J, mode='symmetric', o_dim=1, ri_dim=3, skip=1, scales=2)))
+        out.append(('dtcwt-fwd', dict(biort=b, qshift=q, H=H, W=W, J=J, mode='symmetric', o_dim=2, ri_dim=-1, skip=2 ** J - 2, scales=0)))
         out.append(('dtcwt-inv', dict(biort=b, qshift=q, H=H, W=W, J=J, mode='symmetric', o_dim=2, ri_dim=-1, absent=1)))
         out.append(('dtcwt-inv', dict(biort=b, qshift=q, H=H, W=W, J=J, mode='symmetric', o_dim=2, ri_dim=-1, absent=2,
                                       absent_kind='empty')))
